@@ -55,14 +55,18 @@ def rhe (x : Rat) : Int :=
 
 def pow2 (e : Int) : Rat := if 0 ≤ e then ((2 ^ e.toNat : Nat) : Rat) else 1 / ((2 ^ (-e).toNat : Nat) : Rat)
 
-/-- nearest binary64 (ties to even) of a rational in the normal range: the double product `v*P` -/
-def fl (x : Rat) : Rat :=
-  if x = 0 then 0 else
-  let a : Rat := if x < 0 then -x else x
+def absR (x : Rat) : Rat := if x < 0 then -x else x
+
+/-- `floor(log2 |x|)` for `x ≠ 0` -/
+def expo (x : Rat) : Int :=
   let e0 : Int := (Nat.log2 x.num.natAbs : Int) - (Nat.log2 x.den : Int)
-  let e : Int := if pow2 e0 ≤ a then e0 else e0 - 1
-  let scale := pow2 (52 - e)
-  (rhe (x * scale) : Rat) / scale
+  if pow2 e0 ≤ absR x then e0 else e0 - 1
+
+/-- round to 53 significant bits (ties to even) given the binary exponent `e` -/
+def flCore (x : Rat) (e : Int) : Rat := (rhe (x * pow2 (52 - e)) : Rat) / pow2 (52 - e)
+
+/-- nearest binary64 (ties to even) of a rational in the normal range: the double product `v*P` -/
+def fl (x : Rat) : Rat := if x = 0 then 0 else flCore x (expo x)
 
 /-- `round(v*10**5)/10**5` for a non-integral finite double `v`; the result stands for the double
 nearest to the decimal `k/10^5` (which `json` prints as that decimal) -/
@@ -88,6 +92,22 @@ def minimizeL (rnd : Rat → Rat) : List Val → List Val
 def minimizeD (rnd : Rat → Rat) : PyDict → PyDict
   | [] => []
   | (k, v) :: kvs => (k, minimize rnd v) :: minimizeD rnd kvs
+end
+
+mutual
+/-- the finite float leaves of a value -/
+def fltLeaves : Val → List Rat
+  | .flt q => [q]
+  | .list xs => fltLeavesL xs
+  | .tup xs => fltLeavesL xs
+  | .dict kvs => fltLeavesD kvs
+  | .none => [] | .bool _ => [] | .int _ => [] | .nan => [] | .inf _ => [] | .str _ => []
+def fltLeavesL : List Val → List Rat
+  | [] => []
+  | x :: xs => fltLeaves x ++ fltLeavesL xs
+def fltLeavesD : PyDict → List Rat
+  | [] => []
+  | (_, v) :: kvs => fltLeaves v ++ fltLeavesD kvs
 end
 
 /-! ### the value-level effect of `json.loads ∘ json.dumps` -/
@@ -177,7 +197,7 @@ def unionKeys (rows : List PyDict) : List Key :=
 /-- stable insertion sort by `str` -/
 def insertByStr (k : Key) : List Key → List Key
   | [] => [k]
-  | t :: ts => if k.pystr < t.pystr then k :: t :: ts else t :: insertByStr k ts
+  | t :: ts => if t.pystr < k.pystr then t :: insertByStr k ts else k :: t :: ts
 def sortByStr (ks : List Key) : List Key := ks.foldr insertByStr []
 
 def rowGet (k : Key) (row : PyDict) : Val :=
@@ -488,6 +508,10 @@ def specRowsOf (rnd : Rat → Rat) (ir : List Int × List PyDict) : List Row :=
   | [e, l, v] => specRows rnd e l v ir.2
   | _ => []
 
+/-- a well-formed evaluation record: three ids, and either some row has a field or there is no row -/
+def WellFormed (ir : List Int × List PyDict) : Prop :=
+  ir.1.length = 3 ∧ (strKeys ir.2 ≠ [] ∨ ir.2 = [])
+
 def ltTriP (a b : List Int × List PyDict) : Bool := ltIds a.1 b.1
 def ltIdP (a b : Int × PyDict) : Bool := decide (a.1 < b.1)
 
@@ -504,6 +528,9 @@ def normParams (rnd : Rat → Rat) : PyDict → Row
 /-- the params table `t` a log of `txs` must produce -/
 def specParams (rnd : Rat → Rat) (t : Tbl) (txs : List Tx) : List Row :=
   (sortBy ltIdP (paramsOf t txs)).map (fun ip => (idColName t, Val.int ip.1) :: normParams rnd ip.2)
+
+/-- every row is a Python dict: no field name twice -/
+def RowsNodup (rows : List PyDict) : Prop := ∀ r ∈ rows, (r.map (·.1)).Nodup
 
 /-- columns in which the first row decides correctly: the pinned commit's `packed_list2tuple` is right
 exactly on these -/
